@@ -157,6 +157,17 @@ func c07Strings(level int) [][]byte {
 
 	add(nil)
 
+	// lengths that are 32 modulo 2^8 or 2^16 (a length carried in a narrow integer would wrap to 32), and neighbours
+	for _, l := range []int{255, 256, 257, 287, 288, 289, 65535, 65536, 65568, 65569} {
+		b := make([]byte, l)
+		copy(b[l-32:], ref.Bytes32(big.NewInt(7)))
+		add(b)
+
+		c := make([]byte, l)
+		copy(c, ref.Bytes32(big.NewInt(7)))
+		add(c)
+	}
+
 	// limb products
 	for _, s := range alpha.Strings256(ref.N, 2*level+1) {
 		add(ref.Bytes32(s))
